@@ -249,6 +249,11 @@ fn pipe_candidates(p: &Pipe) -> Vec<Pipe> {
                 q.ops[i] = Op::Next;
                 out.push(q);
             },
+            Op::NthBack(k) => {
+                let mut q = p.clone();
+                q.ops[i] = if *k == 0 { Op::NextBack } else { Op::NthBack(k - 1) };
+                out.push(q);
+            },
             Op::Next => {},
         }
     }
